@@ -231,7 +231,14 @@ def parse_header_multi(
             raise ValueError(msg)
 
     header["stream_info"] = sinfo
-    header["nsamples"] = header["stream_info"].get_combined("nsamples")
+    # Count the samples of the joined data sections: summing the per-file
+    # counts drops a sample whenever a file boundary falls inside a sample.
+    header["nsamples"] = (
+        8
+        * int(header["stream_info"].get_combined("datalen"))
+        // int(header["nbits"])
+        // int(header["nchans"])
+    )
     return header
 
 
